@@ -1,4 +1,6 @@
 """C05 - macros and constants are late-bound named values."""
+import contextlib
+
 import gin
 from vf import rt
 from vf import world
@@ -13,23 +15,131 @@ ORDERS = [
 MNAMES = ['m', 'sc/ope', 'deep/er/sc_ope']
 USES = {'U': 'vw.cons.p = %{m}', 'U2': "vw.cons.q = [1, {{'k': (%{m},)}}]"}
 
+# ways of binding the macro (`vkind`)
+#  0 bind_parameter((name, 'gin.macro', 'value'), v)        3 bind_parameter('%name', v)
+#  1 text `name = %vwc.Vk`            2 text `name = @vw.src()` (evaluated reference)
+#  4 text `name/macro.value = %vwc.Vk`   5 text `name/gin.macro.value = %vwc.Vk`
+#  6 text block `name/gin.macro:` + indented `value = %vwc.Vk`
+#  7 chain: `name = %c05i` stated FIRST, every definition is `c05i = %vwc.Vk`
+#  8 chain through containers: `name = (%c05i, [%c05i])` stated LAST, definitions as in 7
+NVKIND = 9
+VK_PROG = (0, 3)
+INNER = 'c05i'
 
-def c05_macros(order: int, split: int, mname: int, vkind: int, ncalls: int,
+# ways of delivering the text statements (`split`)
+#  0 one parse_config call per statement            1 ONE multi-statement text
+#  2 a list of strings                              3 a file (parse_config_file)
+#  4 the first statement in an included file, `include` line first in the main file
+#  5 the last statement in an included file, `include` line last in the main file
+#  6 parse_config_files_and_bindings([f1, f2], bindings=[rest], finalize_config=True)
+NSPLIT = 7
+# where finalize() is called (`fscope`): 0 no scope, 1 inside config_scope('amb'), 2 inside config_scope(<macro name>)
+NFSCOPE = 3
+
+
+def _deftext(vkind, m, which):
+  n = which[1]
+  if vkind == 1:
+    return '%s = %%vwc.V%s' % (m, n)
+  if vkind == 2:
+    return '%s = @%svw.src()' % (m, 'two/' if which == 'D2' else '')
+  if vkind == 4:
+    return '%s/macro.value = %%vwc.V%s' % (m, n)
+  if vkind == 5:
+    return '%s/gin.macro.value = %%vwc.V%s' % (m, n)
+  if vkind == 6:
+    return '%s/gin.macro:\n  value = %%vwc.V%s\n' % (m, n)
+  if vkind in (7, 8):
+    return '%s = %%vwc.V%s' % (INNER, n)
+  raise rt.HarnessError('no text form for vkind %r' % (vkind,))
+
+
+def _want(vkind, v):
+  if vkind == 2:
+    return [v]
+  if vkind == 8:
+    return (v, [v])
+  return v
+
+
+def _deliver(stmts, split, fscope, scope_name):
+  """Delivers `stmts` (str = Gin text, callable = programmatic definition) and finalizes.
+
+  Returns the exception raised by finalize (or by the combined parse-and-finalize call of split 6)."""
+  texts_only = all(isinstance(s, str) for s in stmts)
+  if split >= 3 and not texts_only:
+    rt.discard()                 # a programmatic definition cannot live in a file
+  def scope():
+    if fscope == 1:
+      return gin.config_scope('amb')
+    if fscope == 2:
+      return gin.config_scope(scope_name)
+    return contextlib.nullcontext()
+  if split == 6:
+    with rt.native():
+      files = {'f1.gin': stmts[0] + '\n', 'f2.gin': (stmts[1] + '\n') if len(stmts) > 1 else '# empty\n'}
+      world.use_mem_fs(files)
+      try:
+        with scope():
+          gin.parse_config_files_and_bindings(['f1.gin', 'f2.gin'], bindings=list(stmts[2:]),
+                                              finalize_config=True)
+      except Exception as e:
+        return e
+      return None
+  if split in (0, 1, 2):
+    run = []
+    def flush():
+      if run:
+        with rt.native():
+          gin.parse_config('\n'.join(run) if split == 1 else list(run))
+        del run[:]
+    for s in stmts:
+      if isinstance(s, str):
+        if split == 0:
+          with rt.native():
+            gin.parse_config(s)
+        else:
+          run.append(s)
+      else:
+        flush()
+        s()
+    flush()
+  else:
+    with rt.native():
+      if split == 3:
+        files = {'main.gin': '\n'.join(stmts) + '\n'}
+      elif split == 4:
+        files = {'inc.gin': stmts[0] + '\n',
+                 'main.gin': "include 'inc.gin'\n" + '\n'.join(stmts[1:]) + '\n'}
+      else:
+        files = {'inc.gin': stmts[-1] + '\n',
+                 'main.gin': '\n'.join(stmts[:-1]) + "\ninclude 'inc.gin'\n"}
+      world.use_mem_fs(files)
+      gin.parse_config_file('main.gin')
+  try:
+    with scope():
+      gin.finalize()
+  except Exception as e:
+    return e
+  return None
+
+
+def c05_macros(order: int, split: int, mname: int, vkind: int, ncalls: int, fscope: int,
                v1: int, v2: int) -> bool:
   """
-  pre: 0 <= order < 12 and 0 <= split < 5 and 0 <= mname < 3 and 0 <= vkind < 4 and 1 <= ncalls < 3
+  pre: 0 <= order < 12 and 0 <= split < 7 and 0 <= mname < 3 and 0 <= vkind < 9 and 1 <= ncalls < 3 and 0 <= fscope < 3
   """
   world.fresh()
   order = rt.pick(order, 12)
-  split = rt.pick(split, 5)
+  split = rt.pick(split, NSPLIT)
   mname = rt.pick(mname, 3)
-  vkind = rt.pick(vkind, 4)
+  vkind = rt.pick(vkind, NVKIND)
   ncalls = rt.pick(ncalls, 3)
+  fscope = rt.pick(fscope, NFSCOPE)
   seq = ORDERS[order]
-  if split > len(seq):
-    rt.discard()
   m = MNAMES[mname]
-  rt.sig(('macros', seq, split, m, vkind, ncalls), nontrivial='U' in seq and ('D1' in seq or 'D2' in seq))
+  rt.sig(('macros', seq, split, m, vkind, ncalls, fscope),
+         nontrivial='U' in seq and ('D1' in seq or 'D2' in seq))
   gin.constant('vwc.V1', v1)
   gin.constant('vwc.V2', v2)
   if vkind == 2 and ('D1' in seq or 'D2' in seq):
@@ -39,49 +149,45 @@ def c05_macros(order: int, split: int, mname: int, vkind: int, ncalls: int,
     gin.bind_parameter('two/vw.src.v', v2)
   vals = {'D1': v1, 'D2': v2}
 
-  def define(which):
+  def prog(which):
     if vkind == 0:      # programmatic binding of the macro's value (value stays symbolic)
-      gin.bind_parameter((m, 'gin.macro', 'value'), vals[which])
-    elif vkind == 1:    # text, value routed through a constant
-      with rt.native():
-        gin.parse_config('%s = %%vwc.V%s' % (m, which[1]))
-    elif vkind == 2:    # macro bound to an evaluated reference
-      with rt.native():
-        gin.parse_config('%s = @%svw.src()' % (m, 'two/' if which == 'D2' else ''))
-    else:               # '%name' binding-key syntax of bind_parameter
-      gin.bind_parameter('%' + m, vals[which])
+      return lambda: gin.bind_parameter((m, 'gin.macro', 'value'), vals[which])
+    return lambda: gin.bind_parameter('%' + m, vals[which])   # '%name' binding-key syntax
 
-  # statements before `split` go through individual calls, the rest through one text
   last = None
   uses = []
-  for i, st in enumerate(seq):
+  stmts = []
+  if vkind == 7:
+    stmts.append('%s = %%%s' % (m, INNER))
+  for st in seq:
     if st in ('D1', 'D2'):
-      define(st)
+      stmts.append(prog(st) if vkind in VK_PROG else _deftext(vkind, m, st))
       last = st
     else:
-      with rt.native():
-        gin.parse_config(USES[st].format(m=m))
+      stmts.append(USES[st].format(m=m))
       uses.append(st)
-  # ---- finalize: rejects a referenced-but-never-bound macro ----------------
-  exc = None
-  try:
-    gin.finalize()
-  except Exception as e:
-    exc = e
-  if uses and last is None:
-    return isinstance(exc, ValueError) and not gin.config_is_locked()
+  if vkind == 8:
+    stmts.append('%s = (%%%s, [%%%s])' % (m, INNER, INNER))
+  # ---- delivery + finalize: rejects a referenced-but-never-bound macro ----------------
+  exc = _deliver(stmts, split, fscope, m)
+  # (chain kinds: the link `name = %c05i` references c05i even when nothing uses `name`)
+  referenced = bool(uses) or vkind in (7, 8)
+  if referenced and last is None:
+    return (isinstance(exc, ValueError) and not gin.config_is_locked()) or rt.no(
+        'finalize accepted a macro that is referenced but never bound (exc=%r)' % (exc,))
   if exc is not None:
-    return False
+    with rt.native():
+      return rt.no('fully bound configuration rejected: %r' % (exc,))
   if not uses:
     return True
   # ---- every use yields the most recently bound value ------------------------
+  want = _want(vkind, vals[last])
   for c in range(ncalls):
     del world.LOG[:]
     del world.SRC_CALLS[:]
     world.cons()
     _, args, _, _ = world.LOG[0]
     p, q = args
-    want = [vals[last]] if vkind == 2 else vals[last]
     if 'U' in uses:
       if not rt.same('p', p, want):
         return False
@@ -102,18 +208,36 @@ def c05_macros(order: int, split: int, mname: int, vkind: int, ncalls: int,
   return True
 
 
-def c05_unevaluated(form: int, defined: bool, use: int, other: int) -> bool:
+def _finalize_in(fscope, name='amb'):
+  """finalize() at empty scope (0) or inside an active config scope; returns what it raised"""
+  try:
+    if fscope:
+      with gin.config_scope(name):
+        gin.finalize()
+    else:
+      gin.finalize()
+  except Exception as e:
+    return e
+  return None
+
+
+UNEVAL = ['vw.lit.p = @m/gin.macro', 'vw.lit.p = [@m/gin.macro]', "vw.lit.q = {'k': @m/macro}",
+          'vw.lit.q = {@m/macro: 1}', "vw.lit.q = {'k': [{@m/gin.macro: 2}]}"]
+
+
+def c05_unevaluated(form: int, defined: bool, use: int, other: int, fscope: bool) -> bool:
   """
-  pre: 0 <= form < 3 and 0 <= use < 5 and 0 <= other < 3
+  pre: 0 <= form < 5 and 0 <= use < 6 and 0 <= other < 3
   """
   world.fresh()
-  form = rt.pick(form, 3)
+  form = rt.pick(form, 5)     # where the unevaluated reference sits (3, 4: as a dict KEY)
   defined = rt.flag(defined)
-  use = rt.pick(use, 5)       # proper %m uses of the SAME macro: none / before / after / both / nested before
+  use = rt.pick(use, 6)       # proper %m uses of the SAME macro: none / before / after / both / nested before / dict key before
   other = rt.pick(other, 3)   # an unrelated, well-formed macro: none / before / after
-  rt.sig(('uneval', form, defined, use, other), nontrivial=True)
+  fscope = rt.flag(fscope)    # finalize() called inside config_scope('amb')
+  rt.sig(('uneval', form, defined, use, other, fscope), nontrivial=True)
   with rt.native():
-    bad = ['vw.lit.p = @m/gin.macro', 'vw.lit.p = [@m/gin.macro]', "vw.lit.q = {'k': @m/macro}"][form]
+    bad = UNEVAL[form]
     stmts = []
     if other == 1:
       stmts += ['n = 1', 'vw.dflt.a = %n']
@@ -121,6 +245,8 @@ def c05_unevaluated(form: int, defined: bool, use: int, other: int) -> bool:
       stmts.append('vw.cons.p = %m')
     if use == 4:
       stmts.append("vw.cons.q = [1, {'k': (%m, %m)}]")
+    if use == 5:
+      stmts.append("vw.cons.q = {%m: 1}")
     stmts.append(bad)
     if use in (2, 3):
       stmts.append('vw.cons.q = %m')
@@ -130,33 +256,36 @@ def c05_unevaluated(form: int, defined: bool, use: int, other: int) -> bool:
       stmts.insert(len(stmts) // 2, 'm = 3')
     for st in stmts:
       gin.parse_config(st)
-  try:
-    gin.finalize()
-    return False
-  except ValueError:
-    return not gin.config_is_locked()
+  exc = _finalize_in(fscope)
+  if exc is None:
+    return rt.no('finalize accepted a macro that is referenced without being evaluated')
+  return isinstance(exc, ValueError) and not gin.config_is_locked()
 
 
 PNAMES = ['m', 'm/x', 'm/x/y', 'x']           # macro names that are '/'-prefixes of one another
 REFS = ['%{n}', '@{n}/macro()', '@{n}/gin.macro()']
+KEYVALS = [11, 22, 33, 44]                    # concrete, distinct: they become dict keys (hashed)
 
 
 def c05_prefix(d0: bool, d1: bool, d2: bool, d3: bool, u0: bool, u1: bool, u2: bool, u3: bool,
-               spell: int, bindspell: int, late: bool, v0: int, v1: int, v2: int, v3: int) -> bool:
+               spell: int, bindspell: int, late: bool, fscope: bool,
+               v0: int, v1: int, v2: int, v3: int) -> bool:
   """
-  pre: 0 <= spell < 3 and 0 <= bindspell < 3
+  pre: 0 <= spell < 5 and 0 <= bindspell < 3
   """
   world.fresh()
   defined = [rt.flag(b) for b in (d0, d1, d2, d3)]
   used = [rt.flag(b) for b in (u0, u1, u2, u3)]
-  spell = rt.pick(spell, 3)          # how the uses are spelled
+  spell = rt.pick(spell, 5)          # how the uses are spelled (3: %name as dict KEY, 4: as key of a nested dict)
   bindspell = rt.pick(bindspell, 3)  # how the definitions are made
   late = rt.flag(late)               # definitions after the uses
+  fscope = rt.flag(fscope)           # finalize() called inside config_scope('amb')
   vals = [v0, v1, v2, v3]
-  if any(u and not d for u, d in zip(used, defined)):
+  if any(u and not d for u, d in zip(used, defined)) or spell >= 3:
     # finalize will fail and its message embeds config_str(): no S-input may be bound then
-    vals = [11, 22, 33, 44]
-  rt.sig(('prefix', tuple(defined), tuple(used), spell, bindspell, late),
+    # (and a dict key is hashed, which would realise a symbolic value)
+    vals = KEYVALS
+  rt.sig(('prefix', tuple(defined), tuple(used), spell, bindspell, late, fscope),
          nontrivial=any(used) and any(defined))
   if not any(used):
     rt.discard()
@@ -174,15 +303,15 @@ def c05_prefix(d0: bool, d1: bool, d2: bool, d3: bool, u0: bool, u1: bool, u2: b
   if not late:
     define()
   with rt.native():
-    items = ', '.join("'%d': %s" % (i, REFS[spell].format(n=PNAMES[i])) for i in range(4) if used[i])
-    gin.parse_config('vw.cons.p = {%s}' % items)
+    if spell < 3:
+      items = ', '.join("'%d': %s" % (i, REFS[spell].format(n=PNAMES[i])) for i in range(4) if used[i])
+      gin.parse_config('vw.cons.p = {%s}' % items)
+    else:
+      items = ', '.join("%%%s: '%d'" % (PNAMES[i], i) for i in range(4) if used[i])
+      gin.parse_config(('vw.cons.p = {%s}' if spell == 3 else "vw.cons.p = {'in': [{%s}]}") % items)
   if late:
     define()
-  exc = None
-  try:
-    gin.finalize()
-  except Exception as e:
-    exc = e
+  exc = _finalize_in(fscope)
   unbound = [i for i in range(4) if used[i] and not defined[i]]
   if unbound:
     # a macro that is referenced but never bound is rejected, whatever ELSE is bound
@@ -193,10 +322,116 @@ def c05_prefix(d0: bool, d1: bool, d2: bool, d3: bool, u0: bool, u1: bool, u2: b
       return rt.no('finalize rejected a fully bound configuration: %r' % (exc,))
   world.cons()
   p = world.LOG[-1][1][0]
+  if spell >= 3:
+    p = rt.realize(p)
+    with rt.native():
+      if spell == 4:
+        if not (isinstance(p, dict) and list(p) == ['in'] and isinstance(p['in'], list) and len(p['in']) == 1):
+          return rt.no('shape of the delivered value: %r' % (p,))
+        p = p['in'][0]
+      wantd = dict((vals[i], str(i)) for i in range(4) if used[i])
+      return p == wantd or rt.no('macro as dict key: got %r want %r' % (p, wantd))
   for i in range(4):
     if used[i]:
       if not rt.same('value of ' + PNAMES[i], p[str(i)], vals[i]):
         return False
+  return True
+
+
+# ---- histories that continue after finalize() -------------------------------------------------------
+def c05_after(vkind: int, mname: int, first: bool, redef: int, cscope: int, usespell: bool,
+              v1: int, v2: int) -> bool:
+  """
+  pre: 0 <= vkind < 9 and 0 <= mname < 3 and 0 <= redef < 4 and 0 <= cscope < 3
+  """
+  world.fresh()
+  vkind = rt.pick(vkind, NVKIND)
+  mname = rt.pick(mname, 3)
+  first = rt.flag(first)          # definition before the use
+  redef = rt.pick(redef, 4)       # after finalize: 0 nothing, 1 re-definition under unlock_config,
+                                  # 2 re-definition attempted while locked, 3 as 1 + the macro queried and re-used
+  cscope = rt.pick(cscope, 3)     # consumer called at: empty scope / config_scope('amb') / config_scope(<macro name>)
+  usespell = rt.flag(usespell)    # the use is bound programmatically: bind_parameter(.., parse_value('%name'))
+  m = MNAMES[mname]
+  rt.sig(('after', vkind, m, first, redef, cscope, usespell), nontrivial=True)
+  gin.constant('vwc.V1', v1)
+  gin.constant('vwc.V2', v2)
+  gin.bind_parameter('vw.src.v', v1)
+  gin.bind_parameter('two/vw.src.v', v2)
+  vals = {'D1': v1, 'D2': v2}
+
+  def define(which):
+    if vkind == 0:
+      gin.bind_parameter((m, 'gin.macro', 'value'), vals[which])
+    elif vkind == 3:
+      gin.bind_parameter('%' + m, vals[which])
+    else:
+      with rt.native():
+        gin.parse_config(_deftext(vkind, m, which))
+
+  def use():
+    if usespell:
+      with rt.native():
+        ref = gin.config.parse_value('%' + m)
+      gin.bind_parameter('vw.cons.p', ref)
+    else:
+      with rt.native():
+        gin.parse_config('vw.cons.p = %' + m)
+
+  def call(fn, want, what):
+    del world.LOG[:]
+    del world.SRC_CALLS[:]
+    with (gin.config_scope('amb') if cscope == 1 else gin.config_scope(m) if cscope == 2
+          else contextlib.nullcontext()):
+      fn()
+    p = world.LOG[0][1][0]
+    if not rt.same(what, p, want):
+      return False
+    if vkind == 2 and len(world.SRC_CALLS) != 1:
+      return rt.no('%s: the evaluated reference ran %d times for one use' % (what, len(world.SRC_CALLS)))
+    return True
+
+  with rt.native():
+    if vkind == 7:
+      gin.parse_config('%s = %%%s' % (m, INNER))
+  if first:
+    define('D1')
+    use()
+  else:
+    use()
+    define('D1')
+  with rt.native():
+    if vkind == 8:
+      gin.parse_config('%s = (%%%s, [%%%s])' % (m, INNER, INNER))
+  gin.finalize()
+  if not call(world.cons, _want(vkind, v1), 'first call'):
+    return False
+  if redef == 0:
+    return call(world.cons, _want(vkind, v1), 'second call')
+  if redef == 2:
+    # the statement does not say that a locked config refuses the definition; it does say which value
+    # a use yields: the new one if the definition was accepted, the old one if it was refused
+    try:
+      define('D2')
+      refused = False
+    except Exception:
+      refused = True
+    return call(world.cons, _want(vkind, v1 if refused else v2), 'call after a definition made while locked')
+  with gin.unlock_config():
+    define('D2')
+  if not call(world.cons, _want(vkind, v2), 'call after the re-definition under unlock_config'):
+    return False
+  if redef == 3:
+    # the macro observed through the API: what query_parameter('%name') reports, bound to another parameter,
+    # yields the most recently bound value as well; both spellings of the key report the same thing
+    r = gin.query_parameter('%' + m)
+    r2 = gin.query_parameter(m + '/macro.value')
+    if not rt.same('two spellings of the query', r, r2):
+      return False
+    with gin.unlock_config():
+      gin.bind_parameter('vw.lit.p', r)
+    if not call(world.lit, _want(vkind, v2), 'the queried macro value bound to another parameter'):
+      return False
   return True
 
 
@@ -274,40 +509,317 @@ def c05_constants(n: int, d0: int, d1: int, d2: int, d3: int, q: int, with_macro
     return True
 
 
+# ---- order between the definition of a constant and the parse of its use ---------------------------
+OFAMILY = ['K', 'a.K', 'b.a.K', 'c.a.K', 'b.K', 'L', 'b.L']
+
+
+def c05_const_order(d0: int, d1: int, npre: int, q: int, with_macro: bool) -> bool:
+  """
+  pre: 0 <= d0 < 7 and 0 <= d1 < 7 and 0 <= npre <= 2 and 0 <= q < 9
+  """
+  world.fresh()
+  ds = [rt.pick(d0, 7), rt.pick(d1, 7)]
+  npre = rt.pick(npre, 3)            # how many of the two constants exist when the use is parsed
+  q = rt.pick(q, 9)
+  with_macro = rt.flag(with_macro)
+  query = QUERIES[q]
+  if with_macro and '.' in query:
+    rt.discard()                     # `x.y = v` is a binding, not a macro
+  rt.sig(('const_order', OFAMILY[ds[0]], OFAMILY[ds[1]], npre, query, with_macro), nontrivial=True)
+  names = {}
+
+  def define(i):
+    name = OFAMILY[ds[i]]
+    obj = object()
+    exc = None
+    try:
+      gin.constant(name, obj)
+    except Exception as e:
+      exc = e
+    if spec_matching(list(names), name):       # duplicate (a name that an existing one already answers to)
+      return isinstance(exc, ValueError)
+    if exc is not None:
+      return False
+    names[name] = obj
+    return True
+
+  for i in range(npre):
+    if not define(i):
+      return rt.no('definition %d' % i)
+  at_parse = spec_matching(list(names), query)
+  exc = None
+  try:
+    with rt.native():
+      gin.parse_config('vw.cons.p = %%%s' % query)
+  except Exception as e:
+    exc = e
+  if len(at_parse) > 1:
+    return isinstance(exc, ValueError) or rt.no('ambiguous abbreviation accepted')
+  if exc is not None:
+    return rt.no('parse of the use raised %r' % (exc,))
+  for i in range(npre, 2):
+    if not define(i):
+      return rt.no('late definition %d' % i)
+  if with_macro:
+    with rt.native():
+      gin.parse_config('%s = 12345' % query)
+  at_end = spec_matching(list(names), query)
+  # a use parsed NOW obeys the table as it is now
+  exc = None
+  try:
+    with rt.native():
+      gin.parse_config('vw.cons.q = %%%s' % query)
+  except Exception as e:
+    exc = e
+  if len(at_end) > 1:
+    if not isinstance(exc, ValueError):
+      return rt.no('ambiguous abbreviation accepted by the second parse')
+  elif exc is not None:
+    return rt.no('second parse raised %r' % (exc,))
+  # ---- the use parsed earlier
+  cexc = None
+  got_p = got_q = None
+  try:
+    world.cons()
+    got_p, got_q = world.LOG[0][1]
+  except Exception as e:
+    cexc = e
+  fexc = _finalize_in(0)
+  if len(at_parse) == 1:
+    # it matched a constant when it was parsed: it yields that very object (if the abbreviation has
+    # become ambiguous since, an error is accepted as well - never another object)
+    if cexc is not None or fexc is not None:
+      return (len(at_end) > 1 and isinstance(cexc or fexc, ValueError)) or rt.no(
+          'a use that matched a constant: call %r finalize %r' % (cexc, fexc))
+    if got_p is not names[at_parse[0]]:
+      return rt.no('a use that matched %s yields another object' % at_parse[0])
+    if len(at_end) == 1 and got_q is not names[at_end[0]]:
+      return rt.no('second use yields another object')
+    return True
+  if len(at_end) == 1 and cexc is None and got_p is names[at_end[0]]:
+    # no constant matched when the use was parsed, one does now: the statement does not say at which of
+    # the two moments a name is matched, so delivering the constant is accepted ...
+    return got_q is names[at_end[0]] or rt.no('second use yields another object')
+  # ... and so is treating the use as the macro it was when parsed
+  if with_macro:
+    if cexc is not None or fexc is not None:
+      return rt.no('macro use: call %r finalize %r' % (cexc, fexc))
+    if got_p != 12345:
+      return rt.no('macro use yields %r' % (got_p,))
+    if len(at_end) == 1:
+      return got_q is names[at_end[0]] or rt.no('a macro of the same name shadows the constant')
+    if len(at_end) == 0:
+      return got_q == 12345 or rt.no('second macro use yields %r' % (got_q,))
+    return True
+  return (isinstance(fexc, ValueError) and not gin.config_is_locked()) or rt.no(
+      'finalize accepted a never-bound macro (late constant)')
+
+
+# ---- constants generated from an enum, constants with unusual values --------------------------------
+import enum as _enum
+
+
+class Color(_enum.Enum):
+  RED = 1
+  BLUE = 2
+
+
+class Shade(_enum.Enum):
+  RED = 1
+  DARK = 0
+
+
+def _fn_const():
+  raise AssertionError('a constant that is a function must be delivered, not called')
+
+
+CVALS = [('vwc.kn', None), ('vwc.kz', 0), ('vwc.ke', ''), ('vwc.kf', False), ('vwc.kl', [1, [2]]),
+         ('vwc.kd', {}), ('vwc.kc', _fn_const), ('vwc.kt', Color)]
+EQUERIES = ['RED', 'Color.RED', 'vwc.Color.RED', 'Shade.RED', 'BLUE', 'DARK', 'c.Color.RED', 'Color',
+            'kn', 'kz', 'ke', 'kf', 'kl', 'kd', 'kc', 'kt', 'vwc.kz']
+
+
+def c05_enum(two: bool, how: int, q: int, ncalls: int) -> bool:
+  """
+  pre: 0 <= how < 3 and 0 <= q < 17 and 1 <= ncalls <= 2
+  """
+  world.fresh()
+  two = rt.flag(two)          # a second enum sharing the member name RED
+  how = rt.pick(how, 3)       # decorator with module= / decorator called with cls and module / plain constant() calls
+  q = rt.pick(q, 17)
+  ncalls = rt.pick(ncalls, 3)
+  rt.sig(('enum', two, how, q, ncalls), nontrivial=True)
+  names = {}
+  with rt.native():
+    enums = [Color] + ([Shade] if two else [])
+    for cls in enums:
+      if how == 0:
+        if gin.constants_from_enum(module='vwc')(cls) is not cls:
+          return rt.no('constants_from_enum does not return the class')
+      elif how == 1:
+        if gin.constants_from_enum(cls, module='vwc') is not cls:
+          return rt.no('constants_from_enum does not return the class')
+      else:
+        for mem in cls:
+          gin.constant('vwc.%s.%s' % (cls.__name__, mem.name), mem)
+      for mem in cls:
+        names['vwc.%s.%s' % (cls.__name__, mem.name)] = mem
+    for n, v in CVALS:
+      gin.constant(n, v)
+      names[n] = v
+    try:
+      gin.constants_from_enum(module='vwc')(object)
+      return rt.no('constants_from_enum accepted a class that is not an enum')
+    except TypeError:
+      pass
+    query = EQUERIES[q]
+    want = spec_matching(list(names), query)
+    exc = None
+    try:
+      gin.parse_config('vw.cons.p = %%%s' % query)
+    except Exception as e:
+      exc = e
+    if len(want) > 1:
+      return isinstance(exc, ValueError) or rt.no('ambiguous enum abbreviation accepted')
+    if exc is not None:
+      return rt.no('parse raised %r' % (exc,))
+    if not want:
+      return isinstance(_finalize_in(0), ValueError) or rt.no('never-bound macro accepted')
+    fexc = _finalize_in(0)
+    if fexc is not None:
+      return rt.no('finalize raised %r' % (fexc,))
+    for c in range(ncalls):
+      del world.LOG[:]
+      world.cons()
+      if world.LOG[0][1][0] is not names[want[0]]:
+        return rt.no('%%%s yields %r, not the constant itself' % (query, world.LOG[0][1][0]))
+    if gin.query_parameter(query) is not names[want[0]]:
+      return rt.no('query_parameter yields another object')
+    return True
+
+
+OUTSIDE = ('a root-scope binding of the macro configurable itself (`macro.value = 7`: the statement does not say whether '
+           'a macro that inherits such a value counts as bound); self-referential macros (`m = %m`); dotted macro names '
+           '(`%a.b`, definable only through bind_parameter); constants re-defined in interactive mode and constants across '
+           'clear_config() (C20); a constant whose value is gin.REQUIRED (C10)')
+ASSUMPTIONS = [
+    'values that reach a stringifier or a hash are concrete: configurations whose finalize() is expected to fail '
+    '(its message embeds config_str()) and macros used as dict keys are bound to fixed ints',
+    'c05_const_order: the statement does not say whether a use parsed BEFORE its constant is defined is matched at '
+    'parse time or at use time; both outcomes are accepted there (the constant itself, or macro semantics)',
+    'c05_after redef=2: whether a locked config refuses a definition is not part of this property; the value demanded '
+    'is the new one if the definition was accepted and the old one if it raised',
+]
+
 HARNESSES = {
     'c05_macros': dict(
         fn='c05_macros',
-        anchors=['gin.config:macro', 'gin.config:validate_macros_hook', 'gin.config:__deepcopy__'],
-        smoke=[dict(order=3, split=0, mname=0, vkind=1, ncalls=2, v1=5, v2=6),
-               dict(order=6, split=0, mname=1, vkind=2, ncalls=2, v1=5, v2=6)],
-        tiers={'quick': dict(split=dict(order=list(range(12)), vkind=[0, 1, 2, 3]),
-                             fixed=dict(split=0), budget_s=100),
-               'thorough': dict(split=dict(order=list(range(12)), vkind=[0, 1, 2, 3], mname=[0, 1, 2]),
-                                fixed=dict(split=0), budget_s=300)},
-        bounds='12 orders of up to two definitions and two uses (top-level and nested in list/dict/tuple) '
-               'over separate parse calls; 3 macro names (plain, scope-like, deep scope-like); 4 ways of binding the '
-               'macro (tuple key, via constant in text, to @src(), %name key); 1-2 consumer calls; values: all ints'),
+        anchors=['gin.config:macro', 'gin.config:validate_macros_hook', 'gin.config:__deepcopy__',
+                 'gin.config:parse_config_file', 'gin.config:parse_config_files_and_bindings',
+                 'gin.config_parser:_parse_binding_block'],
+        smoke=[dict(order=3, split=0, mname=0, vkind=1, ncalls=2, fscope=0, v1=5, v2=6),
+               dict(order=6, split=0, mname=1, vkind=2, ncalls=2, fscope=0, v1=5, v2=6),
+               dict(order=3, split=1, mname=0, vkind=4, ncalls=1, fscope=0, v1=5, v2=6),
+               dict(order=5, split=2, mname=1, vkind=5, ncalls=1, fscope=0, v1=5, v2=6),
+               dict(order=7, split=3, mname=2, vkind=6, ncalls=2, fscope=0, v1=5, v2=6),
+               dict(order=1, split=4, mname=0, vkind=7, ncalls=1, fscope=0, v1=5, v2=6),
+               dict(order=3, split=5, mname=1, vkind=8, ncalls=2, fscope=0, v1=5, v2=6),
+               dict(order=4, split=6, mname=0, vkind=1, ncalls=1, fscope=0, v1=5, v2=6),
+               dict(order=11, split=1, mname=0, vkind=3, ncalls=1, fscope=0, v1=5, v2=6),
+               dict(order=0, split=0, mname=1, vkind=1, ncalls=1, fscope=1, v1=5, v2=6),
+               dict(order=2, split=6, mname=2, vkind=6, ncalls=1, fscope=2, v1=5, v2=6)],
+        # quick: the delivery modes and the finalize scopes are swept by the two entries below (same function)
+        tiers={'quick': dict(split=dict(order=list(range(12))),
+                             fixed=dict(split=0, fscope=0), budget_s=150),
+               'thorough': dict(split=dict(order=list(range(12)), vkind=list(range(9)), mname=[0, 1, 2]),
+                                budget_s=300)},
+        bounds='(thorough: the full product; quick: this entry pins one parse call per statement and finalize at empty '
+               'scope, c05_macros_delivery sweeps the 6 other deliveries with 2 calls, c05_macros_fscope the 2 scopes '
+               'with 1 call) 12 orders of up to two definitions and two uses (top-level and nested in list/dict/tuple); 7 ways of '
+               'delivering the statements (one parse call each, ONE multi-statement text, a list of strings, a file, an '
+               'include with the first / the last statement in the included file, parse_config_files_and_bindings over '
+               'two files plus bindings with its own finalize); 3 macro names (plain, scope-like, deep scope-like); '
+               '9 ways of binding the macro (tuple key, %name key, text via a constant, text to @src(), text '
+               '`name/macro.value =`, `name/gin.macro.value =`, block form, macro -> macro chain stated first, chain '
+               'through a tuple/list stated last); finalize at empty scope, inside config_scope("amb"), inside '
+               'config_scope(<macro name>); 1-2 consumer calls; values: all ints'),
+    'c05_macros_delivery': dict(
+        fn='c05_macros',
+        anchors=['gin.config:parse_config_file', 'gin.config:parse_config_files_and_bindings'],
+        smoke=[dict(order=7, split=3, mname=2, vkind=6, ncalls=2, fscope=0, v1=5, v2=6),
+               dict(order=4, split=6, mname=0, vkind=1, ncalls=2, fscope=0, v1=5, v2=6)],
+        tiers={'quick': dict(split=dict(split=[1, 2, 3, 4, 5, 6], mname=[0, 1, 2]),
+                             fixed=dict(ncalls=2, fscope=0), budget_s=150)},
+        bounds='c05_macros with the statements delivered as ONE multi-statement text / a list of strings / a file / an '
+               'include (first or last statement in the included file) / parse_config_files_and_bindings: 12 orders x '
+               '9 ways of binding x 3 macro names, 2 consumer calls, finalize at empty scope'),
+    'c05_macros_fscope': dict(
+        fn='c05_macros',
+        anchors=['gin.config:validate_macros_hook', 'gin.config:config_scope'],
+        smoke=[dict(order=0, split=0, mname=1, vkind=1, ncalls=1, fscope=1, v1=5, v2=6),
+               dict(order=2, split=0, mname=2, vkind=6, ncalls=1, fscope=2, v1=5, v2=6)],
+        tiers={'quick': dict(split=dict(fscope=[1, 2], vkind=list(range(9))),
+                             fixed=dict(ncalls=1, split=0), budget_s=150)},
+        bounds='c05_macros with finalize() called inside config_scope("amb") / config_scope(<macro name>): 12 orders x '
+               '9 ways of binding x 3 macro names, one parse call per statement, 1 consumer call'),
+    'c05_after': dict(
+        fn='c05_after',
+        anchors=['gin.config:macro', 'gin.config:unlock_config', 'gin.config:query_parameter',
+                 'gin.config:parse_value'],
+        smoke=[dict(vkind=1, mname=0, first=True, redef=3, cscope=1, usespell=True, v1=5, v2=6),
+               dict(vkind=2, mname=1, first=False, redef=1, cscope=2, usespell=False, v1=5, v2=6),
+               dict(vkind=7, mname=2, first=True, redef=2, cscope=0, usespell=False, v1=5, v2=6),
+               dict(vkind=8, mname=0, first=False, redef=3, cscope=0, usespell=True, v1=5, v2=6),
+               dict(vkind=6, mname=1, first=True, redef=0, cscope=1, usespell=False, v1=5, v2=6)],
+        tiers={'quick': dict(split=dict(vkind=list(range(9))), budget_s=150),
+               'thorough': dict(split=dict(vkind=list(range(9)), mname=[0, 1, 2]), budget_s=300)},
+        bounds='histories that continue after a successful finalize(): 9 ways of binding the macro x 3 macro names x '
+               'definition before / after the use x use parsed from text or bound through parse_value x consumer called '
+               'at empty scope / inside config_scope("amb") / inside config_scope(<macro name>) x {two calls, '
+               're-definition under unlock_config, re-definition attempted while locked, re-definition + '
+               'query_parameter("%name") re-bound to another parameter}; values: all ints'),
     'c05_unevaluated': dict(
         fn='c05_unevaluated', anchors=['gin.config:validate_reference'],
-        smoke=[dict(form=0, defined=True, use=1, other=0), dict(form=2, defined=False, use=4, other=2)],
-        tiers={'quick': dict(split=dict(use=[0, 1, 2, 3, 4]), budget_s=60),
-               'thorough': dict(split=dict(use=[0, 1, 2, 3, 4], form=[0, 1, 2]), budget_s=60)},
-        bounds='3 placements of an unevaluated macro reference x bound or not x proper uses of the same macro '
-               'before / after / both / nested x an unrelated macro before / after'),
+        smoke=[dict(form=0, defined=True, use=1, other=0, fscope=False),
+               dict(form=2, defined=False, use=4, other=2, fscope=False),
+               dict(form=3, defined=True, use=5, other=0, fscope=False),
+               dict(form=4, defined=True, use=0, other=1, fscope=False),
+               dict(form=1, defined=True, use=2, other=0, fscope=True)],
+        tiers={'quick': dict(split=dict(use=[0, 1, 2, 3, 4, 5]), budget_s=60),
+               'thorough': dict(split=dict(use=[0, 1, 2, 3, 4, 5], form=[0, 1, 2, 3, 4]), budget_s=60)},
+        bounds='5 placements of an unevaluated macro reference (value, in a list, dict value, dict KEY, key of a nested '
+               'dict) x bound or not x proper uses of the same macro before / after / both / nested / as a dict key x an '
+               'unrelated macro before / after x finalize at empty scope or inside config_scope("amb")'),
     'c05_prefix': dict(
         fn='c05_prefix',
         anchors=['gin.config:validate_reference', 'gin.config:validate_macros_hook', 'gin.config:macro'],
         smoke=[dict(d0=True, d1=False, d2=False, d3=True, u0=True, u1=True, u2=False, u3=False, spell=0,
-                    bindspell=0, late=False, v0=1, v1=2, v2=3, v3=4),
+                    bindspell=0, late=False, fscope=False, v0=1, v1=2, v2=3, v3=4),
                dict(d0=True, d1=True, d2=True, d3=False, u0=True, u1=True, u2=True, u3=False, spell=1,
-                    bindspell=2, late=True, v0=1, v1=2, v2=3, v3=4)],
-        tiers={'quick': dict(split=dict(spell=[0, 1, 2], bindspell=[0, 1, 2], late=[False, True]),
-                             fixed=dict(d3=False, u3=False), budget_s=100),
-               'thorough': dict(split=dict(spell=[0, 1, 2], bindspell=[0, 1, 2], late=[False, True]),
+                    bindspell=2, late=True, fscope=False, v0=1, v1=2, v2=3, v3=4),
+               dict(d0=True, d1=True, d2=False, d3=False, u0=True, u1=True, u2=False, u3=False, spell=3,
+                    bindspell=1, late=True, fscope=False, v0=1, v1=2, v2=3, v3=4),
+               dict(d0=True, d1=True, d2=True, d3=False, u0=False, u1=True, u2=True, u3=False, spell=4,
+                    bindspell=0, late=False, fscope=True, v0=1, v1=2, v2=3, v3=4)],
+        tiers={'quick': dict(split=dict(spell=[0, 1, 2, 3, 4], bindspell=[0, 1, 2], late=[False, True]),
+                             fixed=dict(d3=False, u3=False, fscope=False), budget_s=100),
+               'thorough': dict(split=dict(spell=[0, 1, 2, 3, 4], bindspell=[0, 1, 2], late=[False, True]),
                                 budget_s=300)},
-        bounds='macro names m, m/x, m/x/y (and x): every subset defined x every non-empty subset used, 3 spellings of '
-               'the uses (%name, @name/macro(), @name/gin.macro()), 3 spellings of the definitions (tuple key, '
-               '"name/macro.value", "%name"), definitions before or after the uses; values: all ints'),
+        bounds='macro names m, m/x, m/x/y (and x): every subset defined x every non-empty subset used, 5 spellings of '
+               'the uses (%name, @name/macro(), @name/gin.macro() as dict values; %name as dict KEY and as key of a '
+               'nested dict, with fixed distinct ints), 3 spellings of the definitions (tuple key, "name/macro.value", '
+               '"%name"), definitions before or after the uses, finalize at empty scope or inside config_scope("amb"); '
+               'values: all ints'),
+    'c05_prefix_fscope': dict(
+        fn='c05_prefix',
+        anchors=['gin.config:validate_macros_hook', 'gin.config:config_scope'],
+        smoke=[dict(d0=True, d1=True, d2=True, d3=False, u0=False, u1=True, u2=True, u3=False, spell=4,
+                    bindspell=0, late=False, fscope=True, v0=1, v1=2, v2=3, v3=4)],
+        tiers={'quick': dict(split=dict(spell=[0, 1, 2, 3, 4]),
+                             fixed=dict(d3=False, u3=False, fscope=True, bindspell=0, late=False), budget_s=100)},
+        bounds='c05_prefix with finalize() called inside config_scope("amb") (quick tier of c05_prefix pins the empty '
+               'scope): names m, m/x, m/x/y, every subset defined x every non-empty subset used, 5 spellings of the '
+               'uses, definitions by tuple key before the uses'),
     'c05_constants': dict(
         fn='c05_constants',
         anchors=['gin.config:constant', 'gin.config:_retrieve_constant', 'gin.config:macro'],
@@ -320,4 +832,30 @@ HARNESSES = {
         bounds='3 (quick) / 4 (thorough) definitions in every order from a 9-name family (shared suffixes, '
                '2 invalid names), then one of 9 query spellings, with or without a macro of the same name; '
                'identity of the delivered object'),
+    'c05_const_order': dict(
+        fn='c05_const_order',
+        anchors=['gin.config:constant', 'gin.config:_retrieve_constant', 'gin.config:macro'],
+        smoke=[dict(d0=1, d1=4, npre=1, q=0, with_macro=False),
+               dict(d0=1, d1=2, npre=0, q=0, with_macro=True),
+               dict(d0=5, d1=6, npre=2, q=4, with_macro=False),
+               dict(d0=1, d1=0, npre=1, q=1, with_macro=False)],
+        tiers={'quick': dict(split=dict(d0=list(range(7))), budget_s=150),
+               'thorough': dict(split=dict(d0=list(range(7)), d1=list(range(7))), budget_s=300)},
+        bounds='two constants from a 7-name family with shared suffixes, 0 / 1 / 2 of them defined BEFORE the use is '
+               'parsed and the rest after it, 9 query spellings, with or without a macro of the same name defined last; '
+               'the use parsed early keeps yielding the object it matched, a second use parsed at the end obeys the '
+               'final table'),
+    'c05_enum': dict(
+        fn='c05_enum',
+        anchors=['gin.config:constants_from_enum', 'gin.config:_retrieve_constant'],
+        smoke=[dict(two=False, how=0, q=0, ncalls=2), dict(two=True, how=1, q=0, ncalls=1),
+               dict(two=True, how=2, q=3, ncalls=1), dict(two=False, how=0, q=12, ncalls=2),
+               dict(two=False, how=1, q=14, ncalls=1), dict(two=True, how=0, q=7, ncalls=1)],
+        tiers={'quick': dict(split=dict(how=[0, 1, 2]), budget_s=100),
+               'thorough': dict(split=dict(how=[0, 1, 2], two=[False, True]), budget_s=100)},
+        bounds='constants generated by constants_from_enum (decorator with module=, direct call, or plain constant() '
+               'calls) for one enum or two enums sharing a member name, plus constants whose values are None, 0, "", '
+               'False, a nested list, {}, a function and a class; 17 query spellings (member, Class.member, full name, '
+               'ambiguous member, unknown prefix, class name alone, the odd values); identity over 1-2 calls and '
+               'through query_parameter; a non-enum class is a TypeError'),
 }
